@@ -683,23 +683,35 @@ fn main() {
             let mut rng = ctx.rng(i);
             let n = w.ids.len();
             let gc = GenCtx { n, edge: rng.chance(1, 12) };
-            let e = match rng.below(10) {
-                0..=2 => gen_idiom(&mut rng, &gc),
-                3 => {
-                    // an idiom below a random context
-                    let inner = Box::new(gen_idiom(&mut rng, &gc));
-                    match rng.below(4) {
-                        0 => E::Heads(inner),
-                        1 => E::Intersection(inner, Box::new(gen_expr(&mut rng, &gc, 1))),
-                        2 => E::NotIn(inner),
-                        _ => E::Union(Box::new(gen_expr(&mut rng, &gc, 1)), inner),
+            let gen_one = |rng: &mut Rng| -> E {
+                match rng.below(10) {
+                    0..=2 => gen_idiom(rng, &gc),
+                    3 => {
+                        // an idiom below a random context
+                        let inner = Box::new(gen_idiom(rng, &gc));
+                        match rng.below(4) {
+                            0 => E::Heads(inner),
+                            1 => E::Intersection(inner, Box::new(gen_expr(rng, &gc, 1))),
+                            2 => E::NotIn(inner),
+                            _ => E::Union(Box::new(gen_expr(rng, &gc, 1)), inner),
+                        }
+                    }
+                    _ => {
+                        let depth = 1 + rng.usize(4);
+                        gen_expr(rng, &gc, depth)
                     }
                 }
-                _ => {
-                    let depth = 1 + rng.usize(4);
-                    gen_expr(&mut rng, &gc, depth)
-                }
             };
+            // empty results carry less evidence: most of them are regenerated (up to twice)
+            let mut e = gen_one(&mut rng);
+            for _ in 0..2 {
+                let probe = jjv::catch(|| listing(e.build(&w.ids).evaluate_unoptimized(repo), &w.pos)).flatten();
+                if matches!(probe.as_deref(), Some([])) && rng.chance(3, 4) {
+                    e = gen_one(&mut rng);
+                } else {
+                    break;
+                }
+            }
             let real = e.build(&w.ids);
             let opt = jjv::catch(|| optimize(real.clone())).and_then(|o| read_back(&o, &w.pos));
             let res_opt = jjv::catch(|| listing(real.clone().evaluate(repo), &w.pos));
@@ -742,7 +754,7 @@ fn main() {
                 .map(|l| l.len())
                 .unwrap_or(0);
             let shape = format!(
-                "size={} {} {} {}",
+                "size={} {} {}",
                 match e.size() {
                     0..=2 => "1-2",
                     3..=5 => "3-5",
@@ -755,8 +767,13 @@ fn main() {
                     Some(l) if l.is_empty() => "empty",
                     Some(_) => "nonempty",
                 },
-                if hidden > 0 { "hidden" } else { "allvisible" }
             );
+            if hidden > 0 {
+                ctx.count("(cases on a graph with hidden commits)");
+            }
+            if w.tx.is_some() {
+                ctx.count("(cases evaluated inside an open transaction, heads not normalized)");
+            }
             let nontrivial = e.size() >= 3 && n >= 4;
             ctx.emit(i, term, nontrivial, &shape);
         }
